@@ -11,14 +11,14 @@ ROOT=/tmp/seedrun
 export RUSTUP_TOOLCHAIN=1.96.0 CARGO_NET_OFFLINE=true
 mkdir -p $ROOT/verif
 if [ ! -d $ROOT/repo ]; then git -C /repo worktree add --detach $ROOT/repo HEAD >/dev/null 2>&1 || exit 2; fi
-HEAD=$(git -C /repo rev-parse HEAD)
 for spec in "$@"; do
+  HEAD=$(git -C /repo rev-parse HEAD)
   ID=${spec%%:*}; CHECKS=${spec#*:}; [ "$CHECKS" = "$spec" ] && CHECKS=$ID
   ( cd $ROOT/repo && git checkout -q -- . && git clean -fdq && git checkout -q --detach $HEAD ) || exit 2
   if ! git -C $ROOT/repo apply "$SRC/$ID/patch.diff"; then echo "$ID PATCH-DOES-NOT-APPLY"; continue; fi
   # harness sources (never the build output), path dependencies redirected to the worktree
   rsync -a --delete --exclude target --exclude Cargo.lock /verif/harness/ $ROOT/harness/
-  sed -i "s#\"/repo/#\"$ROOT/repo/#g" $ROOT/harness/*/Cargo.toml
+  sed -i "s#\"/repo/#\"$ROOT/repo/#g" $ROOT/harness/*/Cargo.toml $(grep -rl "\"/repo/" $ROOT/harness/kv-core/src $ROOT/harness/kv-engine/src)
   [ -f $ROOT/harness/Cargo.lock ] || cp /repo/Cargo.lock $ROOT/harness/Cargo.lock
   rsync -a /verif/known_findings.json /verif/properties.jsonl /verif/oracles $ROOT/verif/
   if ! ( cd $ROOT/harness && nice -n 10 cargo build --release --offline -p kv-core > $ROOT/build.log 2>&1 ); then
